@@ -127,7 +127,7 @@ def run(ck):
     ck.extra["m2_mismatches"] = dict(reported)
 
     # ---------------- M3
-    m3(ck, em, rng, 24 if quick else 300, 6 if quick else 8)
+    m3(ck, em, rng, 24 if quick else 150, 6 if quick else 8)
 
 
 # ------------------------------------------------------------------ M3
